@@ -12,7 +12,8 @@ RULE = (
     "and target projects, with and without keep-going, and with a `drain` request injected at any "
     "quiescent point; at the end of the phase the return code bits and the pending summary "
     "(re-computed through the real analyze_pending on the final database) are compared with a "
-    "reference derived from the final step states; non-trivial: the build did not end with 0"
+    "reference derived from the final step states; a drain requested by the harness must show "
+    "in the DRAINED bit and an ERROR line excludes exit status 0; non-trivial: the build did not end with 0"
 )
 ASSUMPTIONS = [
     "INTERRUPTED and INTERNAL bits are added by the terminal process, outside this closed system",
